@@ -134,6 +134,7 @@ func (p *Path) stubByName(name string, fn *ssa.Function, args []Value) (Value, b
 		p.effectArgs = append(p.effectArgs, []*Term{strArg(args[0]), strArg(args[1]), args[2].(*Term)})
 		fail := p.freshVar("oswritefile_fails", SBool)
 		p.registerNondet(fmt.Sprintf("env:os.WriteFile#%d", len(p.effects)), fail)
+		p.effectFail = append(p.effectFail, fail)
 		if p.branch(fail, "os.WriteFile-fails") {
 			return p.newErr(mkStr("os.WriteFile failed"), "os.WriteFile"), true
 		}
